@@ -140,6 +140,7 @@ Definition verify (p : params) (col : option column) (k : constr) : bool :=
       | Some m =>
         if negb (coarse_eqb (coarse_of m) (coarse_of (b_value b))) then false
         else match b_value b, b_prec b with
+             | VDate _, POpen => vltb (b_value b) m
              | VDate _, _ => vleb (b_value b) m
              | _, PClosed => vleb (b_value b) m
              | _, POpen => vltb (b_value b) m
@@ -153,6 +154,7 @@ Definition verify (p : params) (col : option column) (k : constr) : bool :=
       | Some m =>
         if negb (coarse_eqb (coarse_of m) (coarse_of (b_value b))) then false
         else match b_value b, b_prec b with
+             | VDate _, POpen => vltb m (b_value b)
              | VDate _, _ => vleb m (b_value b)
              | _, PClosed => vleb m (b_value b)
              | _, POpen => vltb m (b_value b)
